@@ -22,21 +22,21 @@ Print Assumptions C14_locked_handlers_serialisable.
 (* ---- without the mutex (the pinned tree; defect repaired by the commit recorded in known_findings) ---- *)
 
 (* finite, complete enumeration (bound stated): one operation result (7 store calls) against one
-   PutOperation of the poller (3 store calls) - all 120 interleavings.  The outcome equals both
+   PutOperation of the poller (5 store calls) - all 792 interleavings.  The outcome equals both
    sequential orders unless the poller's pool write falls between the request's last read of
    `operations` and its write: then the newly created operation is lost (open finding).  A retired
    operation is never offered again in any interleaving. *)
 Theorem C14_interleaving_outcome_partial :
-  forall sc, In sc (interleavings 7 3) ->
+  forall sc, In sc (interleavings 7 5) ->
   (in_lost_window sc = false -> pending_after sc = [2]) /\
   (in_lost_window sc = true -> pending_after sc = []).
 Proof. exact interleaving_outcome. Qed.
 Print Assumptions C14_interleaving_outcome_partial.
 
 Theorem C14_serialisable_refuted :
-  exists sc, In sc (interleavings 7 3) /\ pending_after sc <> [2].
+  exists sc, In sc (interleavings 7 5) /\ pending_after sc <> [2].
 Proof. exact serialisable_refuted. Qed.
 
 Theorem C14_sequential_orders :
-  pending_after (repeat true 7 ++ repeat false 3) = [2] /\ pending_after (repeat false 3 ++ repeat true 7) = [2].
+  pending_after (repeat true 7 ++ repeat false 5) = [2] /\ pending_after (repeat false 5 ++ repeat true 7) = [2].
 Proof. exact sequential_orders. Qed.
